@@ -56,21 +56,21 @@ func (r *rng) bytes(n int) []byte {
 func (r *rng) fork() *rng { return newRng(r.next()) }
 
 type suiteCtx struct {
-	name    string
-	tier    string
-	seed    uint64
-	rng     *rng
-	ops     *bufio.Writer
-	impl    *bufio.Writer
-	mon     *bufio.Writer
-	files   []*os.File
-	mu      sync.Mutex
-	evals   int
-	hist    map[string]int
+	name     string
+	tier     string
+	seed     uint64
+	rng      *rng
+	ops      *bufio.Writer
+	impl     *bufio.Writer
+	mon      *bufio.Writer
+	files    []*os.File
+	mu       sync.Mutex
+	evals    int
+	hist     map[string]int
 	distinct map[string]struct{}
-	samples []string
-	scale   int // generator budget multiplier (1 quick, 20 thorough)
-	t       *testing.T
+	samples  []string
+	scale    int // generator budget multiplier (1 quick, 20 thorough)
+	t        *testing.T
 }
 
 // hx encodes a string field for the line protocol
